@@ -22,8 +22,17 @@ pub fn rej_case<const H: usize>(applied: [bool; H]) {
     }
     let fp = mk_named_fp("f", hunks);
     let rep = mk_report(&applied, &lines, PatchDirection::Forward);
+    // canned write! outputs, in call order: "diff --git f f\n", "--- f\n", "+++ f\n", then one hunk header per failed hunk
+    let hdrs: [&'static [u8]; 3] = [b"@@ -3,1 +3,1 @@", b"@@ -13,1 +13,1 @@", b"@@ -23,1 +23,1 @@"];
     let mut out = Sink::<400>::new();
-    fp.write_rej_to(&mut out, &rep).unwrap();
+    out.k = 0;
+    out.canned = [b"diff --git f f\n", b"--- f\n", b"+++ f\n", &[], &[], &[], &[], &[]];
+    let mut nf = 0;
+    let mut hh = 0;
+    while hh < H { if !applied[hh] { out.canned[3 + nf] = hdrs[hh]; nf += 1; } hh += 1; }
+    let wr = fp.write_rej_to(&mut out, &rep);
+    assert!(wr.is_ok());
+    std::mem::forget(wr);
     let mut nfailed = 0;
     h = 0;
     while h < H { if !applied[h] { nfailed += 1; } h += 1; }
